@@ -147,7 +147,9 @@ func main() {
 	for i := 0; i < n; i++ {
 		g := &appdrv.Gen{U: u, R: run.RNG.Fork(), Weird: i%5 == 0}
 		var h appdrv.History
-		if i%2 == 1 {
+		if i%5 == 4 {
+			h, _, _ = g.DKGHistory(5+run.RNG.Intn(6), 8)
+		} else if i%2 == 1 {
 			h, _, _ = g.TransitionHistory(3+run.RNG.Intn(6), 8)
 		} else {
 			h, _, _ = g.RandomHistory(3+run.RNG.Intn(6), 7)
